@@ -102,7 +102,7 @@ FIRST_MISSED = {  # caught only after the extension named here (recorded while t
  "C15-m9": "after every crash point a new file is added and committed in a clone and the result must be connected; the corpus stages nested new directories (its demonstration is tied to the former name of the object temp file and exits 2)",
  "C16-m10": "fault corpus: creating branches whose names sort before the existing ones, with three branches present",
  "C17-m9": "same extension as C13-m10",
- "C17-m10": "NOT caught in the quick tier: two-part extension `*.tar.gz` with a `.gz` sibling tested first in the same directory (the names are generated since; detection is a matter of chance)",
+ "C17-m10": "two-part extension `*.tar.gz` in the ignore lists and, in 40 % of the files written for it, a plain `.gz` sibling that sorts first in the same directory",
  "C18-m10": "NOT caught: needs an argument that names an existing file OUTSIDE the working tree, outside the generated domain (Appendix B, 3)",
  "C19-m10": "a fourth kind of damage in the C19 CLI layer: two bytes inserted (a branch file that holds an id followed by further hex digits)",
  "C20-m9": "names with a backslash followed by `t`, `n`, `r`",
